@@ -483,7 +483,11 @@ func c19OracleBitmap(r *Rng, rep *Report, it int) {
 		}
 		var got []bool
 		p := catch(func() {
-			w := parse.NewBitmapWriter(nil)
+			var start []byte
+			if len(bits)%3 != 0 {
+				start = bytes.Repeat([]byte{0xFF}, 32)[:0] // recycled buffer with stale bytes in its spare capacity
+			}
+			w := parse.NewBitmapWriter(start)
 			for _, b := range bits {
 				w.Write(b)
 			}
